@@ -2,7 +2,7 @@
    Print Assumptions. *)
 From Coq Require Import ZArith NArith List Bool Sorted.
 From Centro Require Import Base.GraphC15 Model.LabelGraph Spec.LabelGraph
-  Proofs.ColorC15 Proofs.DfsC15 Proofs.EulerC15.
+  Proofs.ColorC15 Proofs.DfsC15 Proofs.EulerC15 Proofs.RelabelC15.
 Import ListNotations.
 
 (* ---- all_connected_components / _all_connected_components (Full, including termination) ----
@@ -23,6 +23,17 @@ Proof. exact dfs_all_spec. Qed.
 Print Assumptions C15_dfs_partition.
 
 Open Scope Z_scope.
+(* ---- relabel (Full): the output is the input mapped through a function that fixes the
+   background, is strictly monotone on the labels present (so pixel sets and order are kept) and
+   maps them onto 1..n, n the returned count ---- *)
+Theorem C15_relabel_spec : forall img : image, exists f : Z -> Z,
+  fst (relabel img) = map (map f) img /\ f 0 = 0 /\
+  (forall x, x <> 0 -> In x (concat img) -> 1 <= f x <= snd (relabel img)) /\
+  (forall x y, x <> 0 -> y <> 0 -> In x (concat img) -> In y (concat img) -> (x < y <-> f x < f y)) /\
+  (forall k, 1 <= k <= snd (relabel img) -> exists x, x <> 0 /\ In x (concat img) /\ f x = k).
+Proof. exact relabel_spec. Qed.
+Print Assumptions C15_relabel_spec.
+
 (* ---- color_labels: the first-free-colour rule never returns a colour of a neighbour ---- *)
 Theorem C15_first_free_spec : forall colors k,
   StronglySorted Z.lt colors -> (forall c, In c colors -> k <= c) ->
